@@ -5,7 +5,10 @@ stays the record registered under its key, creators of a missing key are seriali
 placeholder). Tie: every protocol step of the real code, recorded by the verifTrace hook while the
 scenarios run, must be a step of the model. Search: single-key scenarios (fresh-key increments and
 pushes, pops racing with pushes while the list is emptied and unlinked, create/delete churn), through
-the embedded API and over TCP, with and without widened race windows."""
+the embedded API and over TCP, with and without widened race windows; `lin-history` / `tcp-lin-history`:
+recorded histories (invocation and response instants of every call of six clients on a string, a list and a
+set key that are created, emptied and deleted on the way, while eviction passes run) checked per key against
+the sequential semantics with a linearizability checker (porcupine)."""
 from checks import conc
 
 
@@ -14,9 +17,11 @@ def run(ctx, proofs_ok):
     r = 25 if q else 200
     plan = []
     for widen in ((0, 25) if q else (0, 10, 30, 60)):
-        for sc in ("incr-fresh", "push-pop", "push-vs-empty", "create-delete", "tcp-incr", "expired-recreate"):
+        for sc in ("incr-fresh", "push-pop", "push-vs-empty", "create-delete", "tcp-incr", "expired-recreate", "lin-history", "tcp-lin-history"):
             rounds = r if widen < 50 else max(10, r // 4)
             if sc == "expired-recreate":
                 rounds *= 6
+            if sc == "tcp-lin-history":
+                rounds = max(5, rounds // 3)
             plan.append((sc, rounds, widen))
     conc.run_scenarios(ctx, plan, "single-key scenarios (embedded API and TCP)")
